@@ -423,7 +423,8 @@ Definition step (st : cstate) (op : cop) : cstate * bool :=
   | OpSample nb perm =>
       if (Z.of_nat (length (c_objs st)) <? nb)%Z || (nb <? 1)%Z then (st, false)
       else
-        let picked := map (fun k => nth k (c_objs st) (0, ([], []))) (firstn (Z.to_nat nb) perm) in
+        (* rand.Perm only holds valid indices; an index outside the rows selects nothing *)
+        let picked := flat_map (fun k => match nth_error (c_objs st) k with Some o => [o] | None => [] end) (firstn (Z.to_nat nb) perm) in
         let '(s, ok) := add_all false (mkst (c_kind st) IGNORE_NONE (c_alpha st) (-1) 0 [] []) (map snd picked) in
         (* seqBagToAlignment: length of the rows *)
         ((if c_kind st then set_len s (auto_len (c_objs s)) else s), ok)
